@@ -31,7 +31,7 @@ ASSUMPTIONS = ["vf/parse_code.py / vf/parse_latex.py readers", "the HTML (Sphinx
                "leaf identity between the page and the imported module is by display name (clashes -> inconclusive)"]
 MIN_REACH = {"quick": {"documented_members_expected": 3000, "runs_ok": 4, "pages_checked": 700, "equations_code_checked": 500, "equations_latex_checked": 450,
                        "symbol_blocks_checked": 1500, "attr_targets_checked": 1000, "runs_compared": 3, "battery_compared": 4},
-             "thorough": {"runs_ok": 10, "pages_checked": 700, "equations_code_checked": 500}}
+             "thorough": {"runs_ok": 9, "pages_checked": 700, "equations_code_checked": 500}}
 SHARD_TIMEOUT = {"quick": 1500, "thorough": 3300}
 NPROC = 6
 
